@@ -480,11 +480,15 @@ def check_coverage(res, required, what):
 # Apalache (symbolic; used for inductive steps of small modules, always under a timeout)
 # ------------------------------------------------------------------------------------------------
 
-def run_apalache(module, init, inv, length, timeout=900):
+def run_apalache(module, init, inv, length, timeout=900, cinit=None, next_=None):
     """apalache-mc check --init --inv --length on spec/<module>.tla ; returns "NoError" | "Error" | "timeout" | "failed" """
     outdir = BUILD / f"apalache.{os.getpid()}"
     cmd = ["apalache-mc", "check", f"--init={init}", f"--inv={inv}", f"--length={length}", f"--out-dir={outdir}",
            str(SPEC / f"{module}.tla")]
+    if cinit:
+        cmd.insert(2, f"--cinit={cinit}")
+    if next_:
+        cmd.insert(2, f"--next={next_}")
     try:
         p = subprocess.run(cmd, cwd=SPEC, capture_output=True, text=True, timeout=timeout)
     except subprocess.TimeoutExpired:
